@@ -41,13 +41,14 @@ POOL: dict[str, t.Union[str, bytes]] = {
     's_re': 'a+b*', 's_badre': '(', 's_ovre': 'a{4294967296}', 's_baddate': '2020-13-45',
     's_nan': 'nan', 's_uni': 'héllo wörld ✓ \U0001f600', 's_ml': 'line1\nline2\n',
     's_sp': '  padded  ', 's_yes': 'yes', 's_null': 'null', 's_tilde': '~', 's_1e3': '1e3',
-    's_colon': ': #', 's_t': 't', 's_cc': 'c', 's_kind': 'kind', 's_x': 'x', 's_y': 'y', 's_z': 'z',
-    's_w': 'w', 's_v1': 'v1', 's_v2': 'v2', 's_v3': 'v3',
+    's_colon': ': #', 's_t': 't', 's_kind': 'kind', 's_x': 'x', 's_y': 'y', 's_z': 'z',
+    's_w': 'w', 's_nfrac': '-3/4', 's_abc': 'abc', 's_v1': 'v1', 's_v2': 'v2', 's_v3': 'v3',
     'b_x': b'xyz', 'b_empty': b'', 'b_re': b'a+', 'b_badre': b'(',
 }
 _by_text: dict[t.Union[str, bytes], str] = {}
 for _k, _v in POOL.items():
-    _by_text.setdefault(_v, _k)
+    assert _v not in _by_text, f'pool texts must be unique: {_k}'
+    _by_text[_v] = _k
 _texts: dict[str, t.Union[str, bytes]] = dict(POOL)
 _counter = [0]
 
@@ -95,13 +96,17 @@ def facts(token: str) -> dict:
     if f is not None:
         return f
     s = _texts[token]
-    f = {'dec': NO_NUM, 'fr': [0, 0], 'date': '', 'time': '', 'dt': '', 're': 'ok', 'len': len(s)}
+    f = {'dec': NO_NUM, 'fr': [0, 0], 'date': '', 'time': '', 'dt': '', 're': 'ok', 'len': len(s), 'path': token}
     _facts[token] = f  # before recursion on canonical forms
     try:
         re.compile(s)
     except Exception as e:  # noqa
         f['re'] = type(e).__name__
     if isinstance(s, str):
+        try:
+            f['path'] = tok(str(pathlib.PurePosixPath(s)))
+        except Exception:
+            pass
         try:
             f['dec'] = _num_of_decimal(decimal.Decimal(s))
         except OutOfVocab:
@@ -607,6 +612,8 @@ def make_class(C: dict, sp: int = 0) -> type:
             kw['out_name'] = text(f['out'])
         if f['ex'] == 'T':
             kw['exclude'] = True
+        if f.get('init', 'T') == 'F':
+            kw['init'] = False
         if set(kw) <= {'default'}:
             if 'default' in kw:
                 ns[n] = kw['default']
